@@ -42,22 +42,26 @@ def hist_facts(cfg: kaisa.Config, h: list[dict[str, Any]],
 def build_case(cfg: kaisa.Config, h: list[dict[str, Any]],
                ex: dict[str, Any]) -> dict[str, Any]:
     g = cfg.gpt
-    D, M = g['D'], g['M']
-    W = D * M
+    D, M, P = g['D'], g['M'], g.get('P', 1)
+    W = P * D * M
     world = ex['world']
     recs = ex['recs']
     lay = gptrun.layout(g)
     names = gptrun.names_of(g)          # key -> registered name
-    first = recs[0][0]['facts']
-    reg_names = list(first.keys())      # registration order
     key_of = {v: k for k, v in names.items()}
     layers = []
-    for n in reg_names:
-        kind = lay[key_of[n]][0]
-        layers.append({
-            'name': n, 'par': 'output' if kind == 'col' else 'input',
-            'bias': bool(g.get('bias_col' if kind == 'col' else 'bias_row', True)),
-            'iw': int(first[n]['inv'])})
+    reg_names = []
+    for p in range(P):
+        first = recs[p * D * M][0]['facts']    # registration order of stage p
+        for n in first:
+            reg_names.append(n)
+            kind = lay[key_of[n]][0]
+            layers.append({
+                'stage': p,
+                'name': n, 'par': 'output' if kind == 'col' else 'input',
+                'bias': bool(g.get('bias_col' if kind == 'col'
+                                   else 'bias_row', True)),
+                'iw': int(first[n]['inv'])})
     fwd = [reg_names.index(names[k]) + 1 for k in lay]   # forward order
     trace: list[list[dict]] = [[] for _ in range(W)]
     ng: list[list[dict]] = [[] for _ in range(W)]
@@ -85,7 +89,7 @@ def build_case(cfg: kaisa.Config, h: list[dict[str, Any]],
             'root': -1 if e['root'] is None else e['root'],
             'cls': cls, 'at': e.get('at', 0)})
     return {
-        'D': D, 'M': M, 'layers': layers, 'fwd': fwd,
+        'P': P, 'D': D, 'M': M, 'layers': layers, 'fwd': fwd,
         'inhook': bool(cfg.in_hook), 'accum': int(cfg.accum),
         'clip': cfg.kl_clip is not None, 'dir': bool(g.get('ckpt_dir')),
         'bucketed': cfg.bucket_cap_mb > 0,
@@ -180,7 +184,7 @@ def check_all(kcases: list[dict[str, Any]], batch: int = 12,
 
 
 def design_cases(max_d: int, max_m: int, max_layers: int,
-                 limit: int | None = None, seed: int = 0,
+                 limit: int | None = None, seed: int = 0, P: int = 1,
                  ) -> list[dict[str, Any]]:
     """Design-level cases (no recorded trace): every topology up to
     (max_d, max_m), layer lists over parallelism x bias x inverse worker,
@@ -191,7 +195,7 @@ def design_cases(max_d: int, max_m: int, max_layers: int,
 
     out = []
     for D, M in itertools.product(range(1, max_d + 1), range(1, max_m + 1)):
-        W = D * M
+        W = P * D * M
         kinds = [(p, b) for p in ('input', 'output') for b in (False, True)]
         for nl in range(1, max_layers + 1):
             for ks in itertools.product(kinds, repeat=nl):
@@ -201,8 +205,11 @@ def design_cases(max_d: int, max_m: int, max_layers: int,
                     for inhook, accum, clip, dr in (
                             (True, 1, True, False), (False, 2, False, False),
                             (True, 2, True, True), (False, 1, True, False)):
-                        layers = [{'name': f'l{i}', 'par': p, 'bias': b,
-                                   'iw': iw}
+                        # layer i lives on stage i mod P; its inverse worker
+                        # is folded into that stage
+                        layers = [{'stage': i % P, 'name': f'l{i}', 'par': p,
+                                   'bias': b,
+                                   'iw': (i % P) * D * M + iw % (D * M)}
                                   for i, ((p, b), iw) in enumerate(zip(ks, iws))]
                         hist = [
                             {'act': 'train', 'micro': accum, 'armed': True,
@@ -225,7 +232,7 @@ def design_cases(max_d: int, max_m: int, max_layers: int,
                              'haslayers': False},
                         ]
                         out.append({
-                            'D': D, 'M': M, 'layers': layers,
+                            'P': P, 'D': D, 'M': M, 'layers': layers,
                             'fwd': list(range(1, nl + 1)),
                             'inhook': inhook, 'accum': accum, 'clip': clip,
                             'dir': dr, 'bucketed': False, 'hist': hist,
